@@ -49,7 +49,7 @@ func (t *Tracer) open() {
 	t.inChunk = 0
 }
 
-var hexField = regexp.MustCompile(`"h":"[0-9a-f]*"`)
+var hexField = regexp.MustCompile(`"h":"#?[0-9a-f]*"`)
 
 // Emit writes an event. newBehaviour marks the first event of a behaviour (a chunk may
 // only start there). nontrivial says whether the case counts for distinct_nontrivial;
